@@ -213,6 +213,15 @@ pub fn verdict(rng: &mut Rng, stack: bool, extra: usize) -> Vec<Case> {
     for v in [-32768i64, -1, 0, 1, 32767, 32768, 65535] {
         push(fill(v), rng);
     }
+    // literals no 16-bit reading admits at all (must be refused by the lexer, never wrapped)
+    for v in [-32769i64, -40000, -65521, -65535, -65536, 65536, 70000, 131071] {
+        push(fill(v), rng);
+        push(add_i(1, 1, v), rng);
+        push(base_off("ldr", 1, 2, v), rng);
+        push(trap(v), rng);
+        push(pc_lit("ld", 1, v), rng);
+        push(orig(v), rng);
+    }
     for v in [0i64, 1, 0x2FFF, 0x7FFF, 0x8000, 0x8001, 0xFDFF, 0xFE00, 0xFFFE, 0xFFFF] {
         let mut ast = filler(2, rng);
         ast.insert(rng.below(3) as usize, orig(v));
@@ -270,6 +279,36 @@ pub fn verdict(rng: &mut Rng, stack: bool, extra: usize) -> Vec<Case> {
     out
 }
 
+/// .stringz with EVERY content of up to 3 characters over characters that matter to escaping.
+fn strings(rng: &mut Rng) -> Vec<Case> {
+    const CH: [u32; 9] = [97, 92, 34, 110, 116, 114, 10, 9, 0xE9];
+    let mut out = Vec::new();
+    let mut all: Vec<Vec<u32>> = vec![vec![]];
+    let mut frontier: Vec<Vec<u32>> = vec![vec![]];
+    for _ in 0..3 {
+        let mut next = Vec::new();
+        for f in &frontier {
+            for c in CH {
+                let mut g = f.clone();
+                g.push(c);
+                next.push(g);
+            }
+        }
+        all.extend(next.iter().cloned());
+        frontier = next;
+    }
+    for content in all {
+        let mut it = stringz("");
+        it.s = content;
+        let mut ast = filler(rng.below(2) as usize, rng);
+        ast.push(pc_lab("lea", 0, "txt"));
+        ast.push(it.lab("txt"));
+        ast.push(fill(0xBEEF));
+        out.push(Case { fam: "strings", ast });
+    }
+    out
+}
+
 pub fn random(rng: &mut Rng, stack: bool, n: usize) -> Vec<Case> {
     (0..n).map(|_| Case { fam: "random", ast: random_program(rng, stack) }).collect()
 }
@@ -277,11 +316,12 @@ pub fn random(rng: &mut Rng, stack: bool, n: usize) -> Vec<Case> {
 /// C19: sequences of sources assembled one after the other on ONE thread with the documented
 /// state reset in between; every result is logged next to the result of a fresh-thread assembly.
 fn session_main(args: &Args) {
+    let stack = args.num("stack", 1) != 0;
     let seed = args.num("seed", 1);
     let n = args.num("n", 30) as usize;
     let path = args.req("out").to_string();
     let summary = on_fresh_thread(move || {
-        lace::features::init("stack".parse().unwrap());
+        lace::features::init(if stack { "stack".parse().unwrap() } else { "".parse().unwrap() });
         let mut rng = Rng::new(seed ^ 0x5E55);
         let mut out = Out::create(&path);
         let mut id = 0u64;
@@ -295,7 +335,21 @@ fn session_main(args: &Args) {
                 let c = &names[2];
                 // filler statements move the labels to different lines in every source
                 let pad = |rng: &mut Rng| filler(rng.below(4) as usize, rng);
-                let mut item = match rng.below(9) {
+                let mut item = match rng.below(12) {
+                    // many labels (a table that has grown)
+                    9 => {
+                        let mut v = Vec::new();
+                        for k in 0..60 {
+                            v.push(add_i(0, 0, 1).lab(&format!("many_{}", k)));
+                        }
+                        v.push(br_lab(7, c));
+                        v.push(plain("halt").lab(c));
+                        (v, None)
+                    }
+                    // a stack mnemonic: fails in the lexer when the extension is off
+                    10 => (vec![reg1("push", 1).lab(a), plain("halt")], None),
+                    // starts with an operand-less mnemonic, references labels only others define
+                    11 => (vec![plain("getc"), plain("out"), br_lab(7, "many_3"), plain("halt")], None),
                     // valid, defines a b, forward reference to b
                     0 | 1 => {
                         let mut v = vec![pc_lab("ld", 1, b).lab(a), add_i(1, 1, 1)];
@@ -341,14 +395,14 @@ fn session_main(args: &Args) {
                 let here = assemble(&src, true);
                 let src2 = src.clone();
                 let fresh = on_fresh_thread(move || {
-                    lace::features::init("stack".parse().unwrap());
+                    lace::features::init(if stack { "stack".parse().unwrap() } else { "".parse().unwrap() });
                     assemble(&src2, true)
                 });
                 let mut ev = here.to_json();
                 ev["ev"] = json!("asm");
                 ev["id"] = json!(id);
                 ev["fam"] = json!("session");
-                ev["stack"] = json!(true);
+                ev["stack"] = json!(stack);
                 ev["ast"] = ast_json(&ast);
                 ev["src"] = json!(src);
                 ev["lexfail"] = json!(raw.is_some());
@@ -497,6 +551,23 @@ fn total_main(args: &Args) {
                     id += 1;
                 }
             }
+            // .stringz with every content (raw, between the quotes) up to `len` characters
+            "rawstrings" => {
+                const CH: [&str; 7] = ["a", "\\", "\"", "n", "é", "😀", " "];
+                let k = CH.len() as u64;
+                for l in 0..=len {
+                    for code in 0..k.pow(l as u32) {
+                        let mut c = code;
+                        let mut body = String::new();
+                        for _ in 0..l {
+                            body.push_str(CH[(c % k) as usize]);
+                            c /= k;
+                        }
+                        emit_total(&mut out, "total", &format!("lea r0 s\ns .stringz \"{}\"\nhalt\n", body), None, id);
+                        id += 1;
+                    }
+                }
+            }
             // size extremes
             "huge" => {
                 let mut texts: Vec<String> = Vec::new();
@@ -508,6 +579,11 @@ fn total_main(args: &Args) {
                 texts.push("jsr far\n.blkw xFFF0\nfar halt\n".to_string());
                 texts.push("far halt\n.blkw xFFF0\ncall far\n".to_string());
                 texts.push("add r0 r0 r0\n".repeat(70_000));
+                for d in [0x7FFCu32, 0x7FFD, 0x7FFE, 0x7FFF, 0x8000, 0x8001, 0x8002, 0xFFFC, 0xFFFD] {
+                    texts.push(format!("lea r0 far\n.blkw x{:X}\nfar halt\n", d));
+                    texts.push(format!("near halt\n.blkw x{:X}\nlea r0 near\n", d));
+                    texts.push(format!("jsr far\n.blkw x{:X}\nfar halt\n", d));
+                }
                 texts.push(format!("{}br top\n", "top add r0 r0 r0\n".to_string() + &"add r1 r1 r1\n".repeat(65_534)));
                 texts.push(format!(".stringz \"{}\"\n", "a".repeat(70_000)));
                 texts.push(".blkw #-1\nhalt\n".to_string());
@@ -529,7 +605,7 @@ pub fn main(args: &Args) {
     if args.req("fam") == "session" {
         return session_main(args);
     }
-    if ["tokens", "chars", "mutate", "huge"].contains(&args.req("fam")) {
+    if ["tokens", "chars", "mutate", "huge", "rawstrings"].contains(&args.req("fam")) {
         return total_main(args);
     }
     let fam = args.req("fam").to_string();
@@ -549,6 +625,7 @@ pub fn main(args: &Args) {
             "labels" => labels(&mut rng, stack, n),
             "verdict" => verdict(&mut rng, stack, n),
             "random" => random(&mut rng, stack, n),
+            "strings" => strings(&mut rng),
             other => panic!("unknown family {other}"),
         };
         let mut out = Out::create(&path);
